@@ -275,4 +275,57 @@ HasNumX(d) ==
   \/ Tag(d) = "arr" /\ \E i \in DOMAIN Val(d) : HasNumX(Val(d)[i])
   \/ Tag(d) = "obj" /\ \E k \in DOMAIN Val(d) : HasNumX(Val(d)[k])
 
+(***************************************************************************)
+(* C18: which keywords of a definition must survive spec -> generated      *)
+(* models -> scanned spec.  SchemaDiffs returns the set of "path:keyword"  *)
+(* places where the two schemas differ; defaults, examples, descriptive    *)
+(* text and x- extensions are not part of the abstract schema at all.      *)
+(* Latitude (schemas.md, primitive types): integer == integer/int64 and    *)
+(* number == number/double.                                                *)
+(***************************************************************************)
+NormFmt(s) ==
+  LET t == Get(s, "type", "")  f == Get(s, "format", "") IN
+  IF t = "integer" /\ f \in {"", "int64"} THEN "int64"
+  ELSE IF t = "number" /\ f \in {"", "double"} THEN "double" ELSE f
+EqScalarKeys == {"minimum", "maximum", "multipleOf", "minLength", "maxLength", "pattern", "minItems", "maxItems",
+                 "minProperties", "maxProperties", "ref"}
+EqBoolKeys   == {"exclusiveMinimum", "exclusiveMaximum", "uniqueItems", "readOnly"}
+
+\* An allOf whose members are all inline objects denotes the same schema as the merged object; the
+\* generator may flatten it.  A $ref introduced by the generator for an anonymous schema (target not a
+\* definition of the input) is looked through.
+InlineAllOf(s) == Has(s, "allOf") /\ \A i \in DOMAIN s.allOf : ~Has(s.allOf[i], "ref") /\ ~Has(s.allOf[i], "allOf")
+TypeF(s)  == IF InlineAllOf(s) THEN "object" ELSE Get(s, "type", "")
+PropsF(s) ==
+  IF InlineAllOf(s)
+    THEN LET names == DOMAIN Props(s) \cup UNION {DOMAIN Props(s.allOf[i]) : i \in DOMAIN s.allOf} IN
+         [k \in names |-> IF k \in DOMAIN Props(s) THEN Props(s)[k]
+                          ELSE Props(s.allOf[CHOOSE i \in DOMAIN s.allOf : k \in DOMAIN Props(s.allOf[i])])[k]]
+    ELSE Props(s)
+ReqF(s) == IF InlineAllOf(s) THEN Required(s) \cup UNION {Required(s.allOf[i]) : i \in DOMAIN s.allOf} ELSE Required(s)
+
+RECURSIVE SchemaDiffs(_, _, _, _)
+SchemaDiffs(a, b0, path, sdefs) ==
+  LET b == IF Has(b0, "ref") /\ ~Has(a, "ref") /\ b0.ref \in DOMAIN sdefs THEN sdefs[b0.ref] ELSE b0
+      sameType == TypeF(a) = TypeF(b) IN
+  (IF sameType THEN {} ELSE {path \o ":type"})
+  \cup (IF NormFmt(a) = NormFmt(b) THEN {} ELSE {path \o ":format"})
+  \cup {path \o ":" \o k : k \in {k \in EqScalarKeys : Has(a, k) # Has(b, k) \/ (Has(a, k) /\ Has(b, k) /\ a[k] # b[k])}}
+  \cup {path \o ":" \o k : k \in {k \in EqBoolKeys : Get(a, k, FALSE) # Get(b, k, FALSE)}}
+  \cup (IF ReqF(a) = ReqF(b) THEN {} ELSE {path \o ":required"})
+  \cup (IF ~sameType THEN {}
+        ELSE IF Has(a, "enum") # Has(b, "enum") THEN {path \o ":enum"}
+        ELSE IF Has(a, "enum") /\ SeqToSet(a.enum) # SeqToSet(b.enum) THEN {path \o ":enum"} ELSE {})
+  \cup (IF DOMAIN PropsF(a) = DOMAIN PropsF(b) THEN {} ELSE {path \o ":properties"})
+  \cup UNION {SchemaDiffs(PropsF(a)[k], PropsF(b)[k], path \o "." \o k, sdefs) : k \in (DOMAIN PropsF(a)) \cap (DOMAIN PropsF(b))}
+  \cup (IF Has(a, "items") # Has(b, "items") THEN {path \o ":items"}
+        ELSE IF Has(a, "items") THEN SchemaDiffs(a.items, b.items, path \o "[]", sdefs) ELSE {})
+  \cup (IF Has(a, "additionalProperties") # Has(b, "additionalProperties") THEN {path \o ":additionalProperties"}
+        ELSE IF Has(a, "additionalProperties") THEN SchemaDiffs(a.additionalProperties, b.additionalProperties, path \o "{}", sdefs) ELSE {})
+  \cup (IF InlineAllOf(a) \/ InlineAllOf(b) THEN {}
+        ELSE IF Has(a, "allOf") # Has(b, "allOf") THEN {path \o ":allOf"}
+        ELSE IF ~Has(a, "allOf") THEN {}
+        ELSE IF Len(a.allOf) # Len(b.allOf) THEN {path \o ":allOf"}
+        ELSE UNION {SchemaDiffs(a.allOf[i], b.allOf[i], path \o "&", sdefs) : i \in DOMAIN a.allOf})
+
 =============================================================================
